@@ -185,11 +185,22 @@ def work(unit):
                             parts.append((m, e))
                         m, e = tree.gather_slices(iter(parts))
                         check_pair(m, e, full_int, ssum, "gather_slices", bad)
-                        if any(ix in output for ix in sl):
-                            for chunk, key in tree.gen_output_chunks(
-                                    arrays, with_key=True,
-                                    strip_exponent=False):
-                                pass  # plain chunks are under C06
+                        # lazily generated output chunks, as (m, e) pairs
+                        for chunk, key in tree.gen_output_chunks(
+                                arrays, with_key=True, strip_exponent=True):
+                            if not (isinstance(chunk, tuple)
+                                    and len(chunk) == 2):
+                                bad.append((
+                                    "gen_output_chunks:not-a-(mantissa,"
+                                    "exponent)-pair",
+                                    type(chunk).__name__,
+                                    len(chunk) if isinstance(chunk, tuple)
+                                    else None))
+                                break
+                            w = exact_reference(inputs, output, sd, base,
+                                                fixed=key)
+                            check_pair(chunk[0], chunk[1], w, ssum,
+                                       "gen_output_chunks", bad)
                     except Exception as ex:
                         bad.append(("slices:raises", repr(ex)))
                 if bad:
